@@ -261,8 +261,16 @@ func init() {
 		in.yield()
 		return nil
 	})
+	// sync.Pool hands back what was Put last (a legal behaviour, and the one that exposes a caller keeping a
+	// reference to a pooled object); an empty pool calls New.
 	reg("(*sync.Pool).Get", func(in *Exec, fr *frame, a []value) value {
-		p := (*a[0].(*value)).(structure)
+		pp := a[0].(*value)
+		if items := in.pools[pp]; len(items) > 0 {
+			v := items[len(items)-1]
+			in.pools[pp] = items[:len(items)-1]
+			return v
+		}
+		p := (*pp).(structure)
 		// last field: New func() any
 		nf := p[len(p)-1]
 		if isNilValue(nf) {
@@ -270,7 +278,17 @@ func init() {
 		}
 		return in.call(fr, 0, nf, nil)
 	})
-	reg("(*sync.Pool).Put", nop)
+	reg("(*sync.Pool).Put", func(in *Exec, _ *frame, a []value) value {
+		pp := a[0].(*value)
+		if i, ok := a[1].(iface); ok && i.t == nil {
+			return nil
+		}
+		if in.pools == nil {
+			in.pools = map[*value][]value{}
+		}
+		in.pools[pp] = append(in.pools[pp], a[1])
+		return nil
+	})
 
 	// ---------------- sync/atomic (package-level, assembly) ----------------
 	for _, ty := range []string{"Int32", "Int64", "Uint32", "Uint64", "Uintptr", "Pointer"} {
